@@ -297,7 +297,7 @@ def _body_ensures(eng, spec, st, fr, extra, pre, node):
     ns = eng.namespace(st, entry=fr.fn["entry"], extra=extra)
     try:
         clauses = spec.body_ensures(eng.S, ns)
-    except BindingError as ex:
+    except (BindingError, TypeError, z3.Z3Exception) as ex:
         clauses = [(f"the per-iteration postcondition binds to the code (missing: {ex})", z3.BoolVal(False))]
     eng.oblige_clauses("loop-body", pre + ":every iteration", st, clauses, node)
 
@@ -307,7 +307,7 @@ def _inv(eng, spec, st, fr, extra):
     ns = eng.namespace(st, entry=fr.fn["entry"], extra=extra)
     try:
         return spec.invariant(eng.S, ns)
-    except BindingError as ex:
+    except (BindingError, TypeError, z3.Z3Exception) as ex:
         # the invariant names something the (changed) code no longer has: the obligation cannot be discharged
         return [(f"the loop invariant binds to the code (missing: {ex})", z3.BoolVal(False))]
 
